@@ -255,6 +255,102 @@ func LockViolations(ns []LNode) []int {
 	return out
 }
 
+// ---- Go copy of the check-then-act analysis (coq/Export/LockIR.v scheck_*) ----
+
+type opair struct{ o, f int }
+type mstate struct {
+	ok   bool // false: no fall-through
+	r, s []opair
+}
+
+func guardedBy(l int, p opair) bool { return specOf(p.f) == l && l > 0 }
+
+func munion(x, y mstate) mstate {
+	if !x.ok {
+		return y
+	}
+	if !y.ok {
+		return x
+	}
+	return mstate{true, append(append([]opair{}, x.r...), y.r...), append(append([]opair{}, x.s...), y.s...)}
+}
+
+func scheckStmt(n LNode, X mstate) ([]int, mstate) {
+	switch n.K {
+	case "Acq":
+		return nil, X
+	case "Rel":
+		st := []opair{}
+		for _, p := range X.r {
+			if guardedBy(n.L, p) {
+				st = append(st, p)
+			}
+		}
+		return nil, mstate{true, X.r, append(st, X.s...)}
+	case "Bind":
+		return nil, mstate{ok: true}
+	case "Acc":
+		switch n.A {
+		case "R":
+			s := []opair{}
+			for _, p := range X.s {
+				if p != (opair{n.O, n.F}) {
+					s = append(s, p)
+				}
+			}
+			return nil, mstate{true, append([]opair{{n.O, n.F}}, X.r...), s}
+		case "W":
+			var v []int
+			for _, p := range X.s {
+				if p.f == n.F {
+					v = []int{n.Site}
+					break
+				}
+			}
+			return v, mstate{true, append([]opair{{n.O, n.F}}, X.r...), X.s}
+		}
+		return nil, X
+	case "If":
+		v1, f1 := scheckBlock(n.Then, X)
+		v2, f2 := scheckBlock(n.Else, X)
+		return append(v1, v2...), munion(f1, f2)
+	case "Loop":
+		v, _ := scheckBlock(n.Body, mstate{ok: true})
+		return v, mstate{ok: true}
+	case "Continue", "Break", "Return":
+		return nil, mstate{}
+	}
+	return []int{n.Site}, mstate{ok: true}
+}
+
+func scheckBlock(ns []LNode, X mstate) ([]int, mstate) {
+	if len(ns) == 0 {
+		return nil, X
+	}
+	v1, f1 := scheckStmt(ns[0], X)
+	if !f1.ok {
+		return v1, f1
+	}
+	v2, f2 := scheckBlock(ns[1:], f1)
+	return append(v1, v2...), f2
+}
+
+// StaleViolations: write sites that may act on knowledge read before the
+// guarding lock was released and not read again since.
+func StaleViolations(ns []LNode) []int {
+	v, _ := scheckBlock(ns, mstate{ok: true})
+	seen := map[int]bool{}
+	var out []int
+	for _, s := range v {
+		if !seen[s] {
+			seen[s] = true
+			out = append(out, s)
+		}
+	}
+	sort.Ints(out)
+	return out
+}
+
 // ---- translation ----
 
 // LockXlate holds the parsed packages and the site table.
@@ -1154,7 +1250,9 @@ func (c *lctx) stmt(s ast.Stmt) []LNode {
 		out := c.stmt(s.Init)
 		head := append(c.stmt(s.Post), c.expr(s.Cond)...)
 		body := append(head, c.stmt(s.Body)...)
-		out = append(out, LNode{K: "Loop", Body: body, Site: c.x.site(c.fn, "loop", c.p().at(s), "L")})
+		if !pureLoopBody(body) {
+			out = append(out, LNode{K: "Loop", Body: body, Site: c.x.site(c.fn, "loop", c.p().at(s), "L")})
+		}
 		out = append(out, c.expr(s.Cond)...)
 		c.env = saved
 		return out
@@ -1198,7 +1296,9 @@ func (c *lctx) stmt(s ast.Stmt) []LNode {
 			}
 		}
 		body := append(pre, c.stmt(s.Body)...)
-		out = append(out, LNode{K: "Loop", Body: body, Site: c.x.site(c.fn, "loop", c.p().at(s), "L")})
+		if !pureLoopBody(body) {
+			out = append(out, LNode{K: "Loop", Body: body, Site: c.x.site(c.fn, "loop", c.p().at(s), "L")})
+		}
 		c.env = saved
 		return out
 	case *ast.SwitchStmt, *ast.TypeSwitchStmt, *ast.SelectStmt:
@@ -1207,6 +1307,23 @@ func (c *lctx) stmt(s ast.Stmt) []LNode {
 		return []LNode{c.unknown(s, "label")}
 	}
 	return []LNode{c.unknown(s, "statement")}
+}
+
+// pureLoopBody: no lock operation, shared access, rebinding, return or unknown
+// inside: such a loop is omitted from the IR (it has no event but the markers).
+func pureLoopBody(ns []LNode) bool {
+	for _, n := range ns {
+		switch n.K {
+		case "Continue", "Break":
+		case "If":
+			if !pureLoopBody(n.Then) || !pureLoopBody(n.Else) {
+				return false
+			}
+		default:
+			return false
+		}
+	}
+	return true
 }
 
 func (c *lctx) setVar(name string, v val) {
